@@ -166,6 +166,58 @@ def specEq [BEq ν] (a b : Spec κ ν) : Except Err Bool :=
 
 end
 
+/-! ### The text file as nested lazy containers
+
+`CIFFile.deserialize(text)` holds every block as text; `file[b]` turns that text into a block that
+holds every category as text; `block[c]` parses the category. -/
+
+abbrev CatStore := Store (Option Str) Str (Str × Cols)
+abbrev FileStore := Store Str Str CatStore
+
+/-- what `CIFBlock.deserialize` produces: all categories still text -/
+def parseBlockStore (t : Str) : Option CatStore :=
+  match blockDeserialize t with
+  | .ok cats => some (cats.map (fun c => (c.1, Entry.raw c.2)))
+  | .error _ => none
+
+def parseCatOpt (t : Str) : Option (Str × Cols) :=
+  match categoryDeserialize t with
+  | .ok c => some c
+  | .error _ => none
+
+/-- what `CIFFile.deserialize` produces: all blocks still text -/
+def lazyFile (text : Str) : FileStore := (fileDeserialize text).map (fun b => (b.1, Entry.raw b.2))
+
+/-- the same file with everything parsed -/
+def parsedFile (r : List (Str × List (Option Str × (Str × Cols)))) : FileStore :=
+  r.map (fun b => (b.1, Entry.parsed (b.2.map (fun c => (c.1, Entry.parsed c.2)))))
+
+/-- the meaning of a file store: block name ↦ (category name ↦ parsed category) -/
+def deepAbs (fs : FileStore) : Spec Str (Spec (Option Str) (Str × Cols)) :=
+  (absStore parseBlockStore fs).map (fun kv => (kv.1, kv.2.map (absStore parseCatOpt)))
+
+/-- `file[b][c]` on the lazily held file -/
+def lazyGet (text : Str) (b : Str) (c : Option Str) : Except Err (Str × Cols) :=
+  match (step ⟨false, false⟩ parseBlockStore (lazyFile text) (.get b)).2 with
+  | .val bs =>
+    match (step ⟨false, false⟩ parseCatOpt bs (.get c)).2 with
+    | .val cat => .ok cat
+    | .err e => .error e
+    | _ => .error .typeError
+  | .err e => .error e
+  | _ => .error .typeError
+
+/-- `mapping[b][c]` on the plain nested mapping -/
+def deepGet (sp : Spec Str (Spec (Option Str) (Str × Cols))) (b : Str) (c : Option Str) : Except Err (Str × Cols) :=
+  match lookup b sp with
+  | none => .error .keyError
+  | some none => .error derr
+  | some (some cats) =>
+    match lookup c cats with
+    | none => .error .keyError
+    | some none => .error derr
+    | some (some cat) => .ok cat
+
 /-! ### Containers that store their elements under an encoded key (`BinaryCIFBlock`)
 
 `BinaryCIFBlock` keeps category `name` under the key `"_" + name` (get/set/del/contains add the
